@@ -86,18 +86,26 @@ def physical(model, rows):
     """Every series element keeps its polarity (C01's quantifier)."""
     for n, r in rows.items():
         k = model.kind(n)
-        if k in ("RLoss", "VLoss", "PSwitch", "PMux", "Rectifier", "Source"):
+        if k in SERIES:
             vi, vo = r["Vin (V)"], r["Vout (V)"]
             if not (num(vi) and num(vo)):
                 return False
-            if k == "Rectifier":
-                if vo < 0:
-                    return False
-            elif vo != 0 and vi != 0 and sgn(vo) != sgn(vi):
-                return False
-            if abs(vo) > abs(vi) * (1 + AMP_RTOL) + AMP_ATOL:
+            if inverted(k, vi, vo):
                 return False
     return True
+
+
+SERIES = ("RLoss", "VLoss", "PSwitch", "PMux", "Rectifier", "Source")
+
+
+def inverted(k, vi, vo):
+    if k == "Rectifier":
+        return vo < 0
+    return vo != 0 and vi != 0 and sgn(vo) != sgn(vi)
+
+
+def amplified(vi, vo):
+    return abs(vo) > abs(vi) * (1 + AMP_RTOL) + AMP_ATOL
 
 
 def check_table(model, table, ta, tol, enabled, out, stats, phase_arg=""):
@@ -122,17 +130,17 @@ def check_table(model, table, ta, tol, enabled, out, stats, phase_arg=""):
                         out.append(("C03", "finite", "%s %s = %r" % (n, c, r[c])))
                     return
         phys = physical(model, rows)
+        if "C03" in enabled:
+            for n, r in rows.items():
+                k = model.kind(n)
+                if k in SERIES:
+                    vi, vo = r["Vin (V)"], r["Vout (V)"]
+                    if inverted(k, vi, vo) or amplified(vi, vo):
+                        out.sig = row_sig(model.comps[n])
+                        out.append(("C03", "series-inverted-or-amplified", "phase %r %s (%s): Vin=%r Vout=%r" % (ph, n, k, vi, vo)))
+                        return
         if not phys:
             stats["nonphysical_tables"] += 1
-            if "C03" in enabled:
-                for n, r in rows.items():
-                    k = model.kind(n)
-                    if k in ("RLoss", "VLoss", "PSwitch", "PMux", "Rectifier", "Source"):
-                        vi, vo = r["Vin (V)"], r["Vout (V)"]
-                        bad = (k == "Rectifier" and vo < 0) or (k != "Rectifier" and vo != 0 and vi != 0 and sgn(vo) != sgn(vi)) or abs(vo) > abs(vi) * (1 + AMP_RTOL) + AMP_ATOL
-                        if bad:
-                            out.append(("C03", "series-inverted-or-amplified", "phase %r %s (%s): Vin=%r Vout=%r" % (ph, n, k, vi, vo)))
-                            break
             continue
         _check_rows(model, table, ph, rows, ta, tol, enabled, out, stats)
         if out:
@@ -141,6 +149,27 @@ def check_table(model, table, ta, tol, enabled, out, stats, phase_arg=""):
         return
     if coherent and ("C07" in enabled or "C09" in enabled):
         _check_aggregates(model, table, enabled, out, stats, phase_arg)
+
+
+def row_sig(spec):
+    """Machine-readable signature of the input class a row belongs to (used
+    only to recognise recorded known findings)."""
+    if spec["kind"] == "Source":
+        p = eff_params(spec)
+        if p["vo"] < 0 and p["rs"] != 0:
+            return "source-negative-vo-with-rs"
+    return ""
+
+
+class _Out(list):
+    """Violation list that stamps the current row's signature on entries."""
+
+    sig = ""
+
+    def append(self, item):
+        if len(item) == 3:
+            item = item + (self.sig,)
+        list.append(self, item)
 
 
 def _check_rows(model, table, ph, rows, ta, tol, enabled, out, stats):
@@ -154,6 +183,7 @@ def _check_rows(model, table, ph, rows, ta, tol, enabled, out, stats):
         spec = model.comps[n]
         k = spec["kind"]
         conf = model.phase_conf[n]
+        out.sig = row_sig(spec)
         vin, vout, iin, iout = r["Vin (V)"], r["Vout (V)"], r["Iin (A)"], r["Iout (A)"]
         P, L, eff = r["Power (W)"], r["Loss (W)"], r["Efficiency (%)"]
         if r["Type"] != TYPE_OF[k]:
@@ -184,7 +214,7 @@ def _check_rows(model, table, ph, rows, ta, tol, enabled, out, stats):
                     return
         ei = expected_iout(model, rows, n)
         if ei is not None and ("C01" in E or "C05" in E):
-            ok = abs(iout - ei) <= 1e-12 + 1e-9 * abs(ei)
+            ok = abs(iout - ei) <= (tol.i(max(abs(ei), abs(iout))) if k == "Source" else 1e-12 + 1e-9 * abs(ei))
             if not ok:
                 hasmux = any(len(model.parents[c]) > 1 for c in model.children(n))
                 pid = "C05" if (hasmux and "C05" in E) else "C01"
@@ -308,6 +338,7 @@ def _check_rows(model, table, ph, rows, ta, tol, enabled, out, stats):
                         out.append(("C09", "row-warnings", "phase %r %s (%s): Warnings %r, expected %s (limits %r)" % (ph, n, k, r["Warnings"], sorted(w[0]), spec.get("lim"))))
                         return
                     stats["c09_boundary_skips"] += 1
+    out.sig = ""
     if "C02" in E:
         if abs(src_power - (load_power + loss_sum)) > cons_tol + 1e-15:
             out.append(("C02", "system-conservation", "phase %r: sources %r != loads %r + losses %r (tol %g)" % (ph, src_power, load_power, loss_sum, cons_tol)))
@@ -398,6 +429,8 @@ def _check_aggregates(model, table, enabled, out, stats, phase_arg):
                     P, L = sr["Power (W)"], sr["Loss (W)"]
                     if P > 0:
                         e = 100.0 * (P - L) / P
+                        if abs(e) < 0.01:  # all power is loss: sign of the rounding residue is not demanded
+                            e = abs(e)
                         if abs(sr["Efficiency (%)"] - e) > 1e-6 or sr["Efficiency (%)"] > 100.0 + 1e-9:
                             out.append(("C07", "subsystem-efficiency", "phase %r Subsystem %s: eff=%r want %r" % (ph, s, sr["Efficiency (%)"], e)))
                             return
@@ -413,6 +446,8 @@ def _check_aggregates(model, table, enabled, out, stats, phase_arg):
                 return
             if t["Power (W)"] > 0:
                 e = 100.0 * (t["Power (W)"] - t["Loss (W)"]) / t["Power (W)"]
+                if abs(e) < 0.01:
+                    e = abs(e)
                 if abs(t["Efficiency (%)"] - e) > 1e-6 or t["Efficiency (%)"] > 100.0 + 1e-9:
                     out.append(("C07", "total-efficiency", "phase %r total: eff=%r want %r" % (ph, t["Efficiency (%)"], e)))
                     return
